@@ -54,7 +54,21 @@ def member_rules(rep, prog):
     # which defining condition is not consulted at all?  (must-depend: certain)
     missing = [n for n, t in (("vstructures(P)", vsP), ("vstructures(G)", vsG), ("skeleton(P)", skP), ("skeleton(G)", skG), ("only_directed(P)", odP))
                if not mentions(ret, t)]
-    if missing:
+    def other_uses(t):
+        # does the term read P or G anywhere outside the two v-structure calls?
+        if t in (vsP, vsG):
+            return False
+        if t in (PP_, PG):
+            return True
+        return isinstance(t, tuple) and any(other_uses(x) for x in t if isinstance(x, tuple))
+    known = want | {alt3}
+    subset_of_known = bool(got) and got <= known           # the recognised conditions, some of them left out: decided
+    paths = [c for r_ in S.select("return", qname=q) for c, _ in r_.path]
+    if missing and not any(m.startswith("vstructures") for m in missing) and not subset_of_known and (other_uses(ret) or any(other_uses(c) for c in paths)):
+        # the skeleton / orientation conditions are not computed with skeleton() / only_directed(), but the result does read P and G in some other
+        # way (entry-pattern masks, guard clauses): whether that is the same condition is not decided
+        rep.unk("MEMBER.conjunction", fwhere(f), "the result reads P and G outside vstructures(), but not through %s: whether the skeleton and orientation conditions are still enforced is not read" % ", ".join(missing))
+    elif missing:
         rep.bad("MEMBER.conjunction", fwhere(f), "the result does not depend on %s: a defining condition of consistent extensions is ignored" % ", ".join(missing))
     elif ret[0] == "bool" and ret[1] == "or":
         rep.bad("MEMBER.conjunction", fwhere(f), "the three conditions are combined with `or`")
